@@ -550,12 +550,11 @@ AUTOS = [["none"], ["ext", ".txt"], ["dir", "/auto"]]
 
 class SmartGen:
     """Seeded generator: fresh paths between drains, a file is acted on from one side only between two drains,
-    folder deletion bracketed by drains; request/un-request/listing anywhere."""
+    folder deletion bracketed by drains; request / un-request (of files and folders, by path or id, of objects the engine
+    may not know yet or know without a path) and listing anywhere."""
 
-    def __init__(self, rng, drained, wild=False):
+    def __init__(self, rng, drained):
         self.rng = rng
-        self.wild = wild                # Stream B only: by-id requests of objects the engine may know without a path,
-                                        # request / un-request of folders (findings S-1, S-2)
         self.drained = drained          # a drain after every action (sequential spec semantics, every outcome compared)
         self.fl = rng.choice(SMART_FLAVOURS)
         self.auto = rng.choice(AUTOS)
@@ -565,7 +564,6 @@ class SmartGen:
         self.touched = {}               # rel -> side that acted on it since the last drain
         self.dead = set()               # paths freed since the last drain
         self.known = set()
-        self.by_id_unknown = wild
         if self.auto[0] == "dir":
             self.user(1, "mkdir", "/auto")
             self.drain()
@@ -618,12 +616,7 @@ class SmartGen:
         return self.touched.get(rel, side) == side and rel not in self.dead
 
     def how(self, rel=None):
-        h = self.rng.choice(["path_l", "path_r", "oid"])
-        if h == "oid" and rel not in self.known and not self.by_id_unknown:
-            # by id only for objects that existed at the last quiescent point (finding S-1: request by id of an entry
-            # whose path the engine has not filled in yet raises AttributeError after registering the request)
-            h = self.rng.choice(["path_l", "path_r"])
-        return h
+        return self.rng.choice(["path_l", "path_r", "oid"])
 
     def one(self):
         rng, m = self.rng, self.m
@@ -696,7 +689,7 @@ class SmartGen:
                 m.step(("unrequest", p))
         elif r < 0.96:                                                  # listing
             self.sched.append(["hook", "list", rng.choice(self.dirs(m.L))])
-        elif self.wild and rng.random() < 0.6:                          # Stream B only: request / un-request of a FOLDER
+        elif rng.random() < 0.6:                                        # request / un-request of a FOLDER (registers nothing)
             ds = [d for d in self.dirs(m.R) if d]
             if ds:
                 d = rng.choice(ds)
@@ -728,10 +721,11 @@ WILD_VERSION = "c20-wild-2"
 
 
 def smart_wild(i):
-    """fixed-seed sample of the generator WITHOUT the two domain restrictions of Stream A"""
+    """fixed-seed sample of the generator (until the repairs fc0a567 / 2277c0d its 206 failing cases were the listed findings
+    S-1 / S-2; Stream A was then restricted to files and to ids of objects with a known path)"""
     import random
     rng = random.Random("%s/%d" % (WILD_VERSION, i))
-    return SmartGen(rng, rng.random() < 0.3, wild=True).case(rng.randint(2, 14))
+    return SmartGen(rng, rng.random() < 0.3).case(rng.randint(2, 14))
 
 
 smart_wild.by_index = True
